@@ -22,7 +22,7 @@ RULE = ("generated datasets: daily meter (local midnight, or another fixed hour)
 ASSUMPTIONS = ["the final meter day (open-ended last interval) is excluded", "means are compared with 1e-9 relative tolerance (sum re-association)",
                "'readings of a day' are the feed timestamps inside the meter day; a DST day has 23 or 25 hourly readings"]
 REQUIRED_REACH = {"dataset.judged": 40, "day.mean_compared": 4000, "day.expected_missing": 100, "day.exactly_half": 20, "counts.days_compared": 1500,
-                  "feed.half_hourly": 8, "day.dst": 8, "hook.check_data_sufficiency": 40}
+                  "feed.half_hourly": 8, "day.dst": 8, "day.dst_around_half": 4, "hook.check_data_sufficiency": 40}
 
 VIOL = []
 SUFF = []
@@ -93,6 +93,15 @@ def nan_pattern(rng, tvals, day_of, pattern, per_day):
             idx = np.flatnonzero(day_of == d)
             k = len(idx) // 2 + int(rng.choice([-2, -1, 1, 2]))
             v[rng.choice(idx, size=max(0, k), replace=False)] = np.nan
+    elif pattern == "dst_half":
+        # the 23/25-reading days of a DST change, with just over / just under half of their readings present
+        counts = {d: int((day_of == d).sum()) for d in np.unique(day_of)}
+        usual = max(set(counts.values()), key=list(counts.values()).count)
+        odd = [d for d in days if counts[d] != usual]
+        for d in odd + list(pick(3)):
+            idx = np.flatnonzero(day_of == d)
+            keep = len(idx) // 2 + int(rng.choice([0, 1]))                 # 11|12 of 23, 12|13 of 25, 12|13 of 24
+            v[rng.choice(idx, size=len(idx) - keep, replace=False)] = np.nan
     elif pattern == "quarter":
         for d in pick(10):
             idx = np.flatnonzero(day_of == d)
@@ -165,6 +174,8 @@ def run_case(spec):
             incomplete = True
         if n_ok * 2 == n_tot:
             I.reach("day.exactly_half")
+        if n_tot != 24 * 60 // minutes and abs(n_ok * 2 - n_tot) <= 2 and n_ok < n_tot:
+            I.reach("day.dst_around_half")
         if np.isnan(mean):
             I.reach("day.expected_missing")
             if not np.isnan(g):
@@ -228,7 +239,7 @@ def gen_cases(tier, seed):
     q = tier == "quick"
     n = 64 if q else 900
     zones = ["America/Chicago", "UTC", "Europe/London", "Australia/Sydney", "Asia/Kolkata", "America/Los_Angeles", "Europe/Berlin", "Pacific/Auckland", "Asia/Tokyo", "America/New_York"]
-    pats = ["none", "isolated", "runs", "whole_days", "exactly_half", "around_half", "quarter"]
+    pats = ["none", "isolated", "runs", "whole_days", "exactly_half", "around_half", "quarter", "dst_half", "dst_half"]
     cases = []
     for i in range(n):
         tz = zones[i % (6 if q else len(zones))]
@@ -239,6 +250,8 @@ def gen_cases(tier, seed):
             ftz = tz          # offsets must be whole multiples of the sampling interval
         cls = str(rng.choice(["daily-baseline", "daily-reporting", "billing-baseline"], p=[0.6, 0.2, 0.2]))
         start = str((pd.Timestamp("2019-01-01") + pd.Timedelta(days=int(rng.integers(0, 700)))).date()) if rng.random() < 0.6 else str(rng.choice(["2019-03-01", "2019-10-20", "2020-03-20", "2019-09-25"]))
+        if pats[i % len(pats)] == "dst_half":
+            start = str(rng.choice(["2019-03-01", "2019-10-15", "2020-03-01", "2019-09-20", "2020-10-20"]))
         cases.append(dict(kind="dataset", cls=cls, entry=str(rng.choice(["series", "frame"], p=[0.7, 0.3])), tz=tz, feed_tz=ftz, minutes=minutes,
                           meter_hour=0 if rng.random() < 0.8 or cls.startswith("billing") else int(rng.choice([6, 7, 12])), pattern=pats[i % len(pats)],
                           start=start, days=int(rng.choice([40, 70, 100])) if not cls.startswith("billing") else 120, n=i))
